@@ -28,6 +28,8 @@ type HSPath struct {
 	CtxDeadlineMs      int `json:"ctx_deadline_ms"`
 	// Negative: "" | bad-ws-reply | proxy-refusal | bad-cert
 	Negative string `json:"negative,omitempty"`
+	// Refusal: index into the refusal replies (proxy-refusal).
+	Refusal int `json:"refusal,omitempty"`
 	// Upgrade only: bytes pre-buffered in the hijacked reader, buffer sizes.
 	PreBuffered int `json:"prebuffered,omitempty"`
 	ReadBuf     int `json:"rbuf,omitempty"`
@@ -48,6 +50,7 @@ func genHSPath(t *rapid.T) HSPath {
 	c.HandshakeTimeoutMs = rapid.SampledFrom([]int{0, 0, 30000, 60000, 3600000}).Draw(t, "hto")
 	c.CtxDeadlineMs = rapid.SampledFrom([]int{0, 0, 45000, 50000, 7200000}).Draw(t, "ctx")
 	c.Negative = rapid.SampledFrom([]string{"", "", "", "bad-ws-reply", "proxy-refusal", "bad-cert"}).Draw(t, "negative")
+	c.Refusal = rapid.IntRange(0, len(refusals)-1).Draw(t, "refusal")
 	if c.Path == "upgrade" {
 		c.PreBuffered = rapid.SampledFrom([]int{0, 0, 5, 40}).Draw(t, "prebuf")
 		c.ReadBuf = rapid.SampledFrom([]int{0, 64, 1024}).Draw(t, "rbuf")
@@ -106,7 +109,7 @@ func (c HSPath) peerSpec() (PeerSpec, bool, *url.URL) {
 		spec.BadWSReply = true
 	case "proxy-refusal":
 		if spec.ProxyKind == "http" || spec.ProxyKind == "https" {
-			spec.ProxyReply = "HTTP/1.1 407 Proxy Authentication Required\r\n\r\n"
+			spec.ProxyReply = refusals[c.Refusal%len(refusals)]
 		}
 	case "bad-cert":
 		spec.BackendCert = "otherhost"
